@@ -1,5 +1,6 @@
 import Sm9.Proofs.Identity
 import Sm9.Proofs.Pow
+import Sm9.Proofs.GtOrder
 /-!
 # C01 — Pairing is bilinear, non-degenerate and trivial on the identity
 
@@ -7,8 +8,9 @@ What is a theorem here: identity inputs (in *any* representation x, y, 0) give o
 three entry points; `Gt::pow` is exponentiation.  **Not proved: bilinearity** — it is a
 theorem about the Tate/ate pairing that needs divisor theory absent from Mathlib (see
 DESIGN.md §6 C01); the check decides it on sampled inputs (`law.bilin`, `law.additive`),
-labelled as tests in the evidence.  Non-degeneracy of the generators and the order of
-pairing values are sampled likewise until C17's final-exponentiation theorem lands.
+labelled as tests in the evidence.  The pairing of the generators is not one (kernel
+evaluation of the model) and every pairing value g satisfies g^(r−1)·g = 1 (C17's
+final-exponentiation theorem).
 -/
 namespace Sm9.C01
 
@@ -28,6 +30,17 @@ theorem prepared_pairing_identity_right (p : G1) (qv : G2) (h : qv.z = Fq2.zero)
   prepared_pairing_right_identity p qv h
 /-- e(P,Q)^(ab) on the right-hand side of bilinearity is the integer power -/
 theorem gt_pow_is_power (g : Fq12) (a : Fr) : Api.gtPow g a = g ^ a.val := Fq12.pow_eq g a.val
+
+/-- every value produced by a final exponentiation — hence every pairing value of every entry
+    point — satisfies g^(r−1)·g = 1 -/
+theorem pairing_value_order (f g : Fq12) (h : f.final_exp = .ok (some g)) : g ^ (r - 1) * g = 1 :=
+  (Sm9.gt_order f g h).2
+theorem pairing_value_order_fe (f g : Fq12) (h : f.final_exponentiation = .ok (some g)) : g ^ r = 1 :=
+  Sm9.gt_order_fe f g h
+/-- the pairing of the two generators is not one (both Miller loops, kernel evaluation) -/
+theorem generators_nondegenerate :
+    Api.pairing G.one G.one ≠ .ok Fq12.one ∧ Api.fast_pairing G.one G.one ≠ .ok Fq12.one := by
+  decide +kernel
 
 /-- non-vacuity: a non-canonical identity, as left behind by P − P -/
 example : ({ x := Fq.ofNat 4, y := Fq.ofNat (q - 8), z := 0 } : G1).z = 0 := rfl
